@@ -144,7 +144,19 @@ func (h *Host) NewStream(ctx context.Context, p peer.ID, pids ...protocol.ID) (n
 	local := &Stream{p: pipe, w: h.net.W, self: h.id, remote: p, proto: pid, writer: true}
 	remote := &Stream{p: pipe, w: h.net.W, self: p, remote: h.id, proto: pid}
 	lbl := r.Label
-	simrt.Go(func() { simrt.SetLabel(lbl); handler(remote) })
+	ep0 := r.epoch
+	rr := r
+	simrt.Go(func() {
+		simrt.SetLabel(lbl)
+		if h.net.W.R != nil {
+			cb := &Callback{Name: "stream-handler", Node: lbl, Task: h.net.W.S.CurrentTask(), Step: h.net.W.S.Steps, Dead: func() bool { return rr.epoch != ep0 }}
+			h.net.W.R.Callbacks = append(h.net.W.R.Callbacks, cb)
+			handler(remote)
+			cb.Done = true
+			return
+		}
+		handler(remote)
+	})
 	return local, nil
 }
 
